@@ -518,9 +518,31 @@ def r18i(ck, fb):
         return
     from rn.facts import pl_fields
     ns = Taint(b, place_src=lambda p: 'namespace' in pl_fields(p) and any(isinstance(e, dict) and e.get('o', '').endswith('McpServer') for e in (p.get('p', []) if isinstance(p, dict) else [])))
-    gates = set(i for i, blk in enumerate(b.blocks) if blk['t']['k'] == 'switch' and ns.op_tainted(blk['t']['discr']))
+    gates = set(i for i, blk in enumerate(b.blocks) if i in cfg.live_blocks(b) and blk['t']['k'] == 'switch' and ns.op_tainted(blk['t']['discr']))
+    # a flag computed by the comparison (`let same = a == b || ..; if !same`): constants assigned under a gate, tested later
+    flags = set()
+    for l, ds in b.defs.items():
+        if len(ds) >= 2 and (b.local_ty(l) or '') == 'bool':
+            if any(any(e[0] in gates for e in cfg.dominating_edges(b, bb)) for (k, bb, j, n) in ds):
+                flags.add(l)
+    for i, blk in enumerate(b.blocks):
+        if blk['t']['k'] == 'switch' and i in cfg.live_blocks(b):
+            d = cfg.describe_operand(b, blk['t']['discr'])
+            while d.get('k') == 'un' and d.get('op') == 'Not':
+                d = cfg.describe_operand(b, d['a'])
+            if d.get('k') == 'multi' and d.get('l') in flags:
+                gates.add(i)
     for u in updates:
         ok = bool(gates) and all(u not in cfg.reach_from(b, [l], blocked_blocks=list(gates)) for l in lookups)
+        # ... and the comparison decides something: one of its edges (directly, or through the flag it computes) cannot reach the update
+        if ok:
+            decides = False
+            for g in gates:
+                tt = b.blocks[g]['t']
+                for tb in [x for (_, x) in tt['targets']] + [tt['otherwise']]:
+                    if u not in cfg.reach_from(b, [tb]) and tb != u:
+                        decides = True
+            ok = decides
         ck.require(ok, 'R18i', 'import:update-by-key-stays-in-namespace', b.where(u),
                    'the server found by unique_key is updated whatever namespace it is in: dev1 (whitelist ns1) imports into ns1 a zip naming the key of an '
                    'ns2 server - "1 servers updated", the ns2 server is now namespace=ns1 name=taken-over auth_keys=[dev1-key]',
@@ -537,12 +559,18 @@ def r18j(ck, fb):
         return
     b = gs[0]
     ck.analysed(b)
-    ok = False
+    # refreshers: functions that ask the user manager and write UserSession.namespace_privilege
+    refreshers = []
     for x in util.region(fb, b, 2):
         q = x.aggregates(r'rnacos::user::UserManagerReq$', 'Query')
         w = [1 for (o, f, bb, st) in x.field_writes() if f == 'namespace_privilege' and o.endswith('UserSession')]
         if q and w:
-            ok = True
+            refreshers.append(x.name.replace('::{closure#0}', ''))
+    fresh = Taint(b, call_src=lambda t: ((t.get('f') or {}).get('d') or '') in refreshers)
+    somes = [(i, st) for (i, j, st) in b.aggregates(r'std::option::Option$', 'Some') if 'UserSession' in (b.local_ty(st['d']) or '' if isinstance(st.get('d'), int) else '')]
+    inline = b.name.replace('::{closure#0}', '') in refreshers
+    ok = bool(refreshers) and bool(somes) and (inline or all(fresh.op_tainted(st['rv']['ops'][0]) for (i, st) in somes))
+    ck.info('R18j', '%d session results in get_user_session, refreshers %s' % (len(somes), [r.split('::')[-1] for r in refreshers]))
     ck.require(ok, 'R18j', 'session:namespace-privilege-from-user-record', b.where(),
                'the session is returned as it was stored at login: dev1 logs in, the admin restricts him to ns1 (the user record refuses ns2), the old '
                'token still reads password=ns2-secret from v2/config/info?tenant=ns2', 'refreshed from the user record')
